@@ -30,6 +30,7 @@ type ClauseParam struct {
 	Pos   token.Pos // declaring position for locals (phase-1 file set)
 	File  string
 	Off   int
+	Snap  bool // before(x): read at the 'since' snapshot
 }
 
 type Clause struct {
@@ -43,6 +44,11 @@ type Clause struct {
 	CurrentParams bool // parameters denote current values (loop invariants, asserts), not entry values
 	LoopOrd       int  // for loop invariants: ordinal of the loop (rangeidx refers to its hidden index)
 	Pos           token.Pos
+	// loop invariants may be relative to a snapshot: "invariant since call K f: label: expr"
+	SinceOrdinal int
+	SinceCallee  string
+	SinceFile    string
+	SinceOff     int
 }
 
 type LoopSpec struct {
@@ -255,7 +261,18 @@ func parseContractFile(path string) (*ContractFile, error) {
 				if curLoop == nil {
 					return nil, fmt.Errorf("%s:%d: invariant outside loop", path, s.no)
 				}
+				sinceK, sinceF := 0, ""
+				if f := strings.Fields(rest); len(f) > 4 && f[0] == "since" && f[1] == "call" {
+					k, err := strconv.Atoi(f[2])
+					if err != nil {
+						return nil, fmt.Errorf("%s:%d: bad since ordinal", path, s.no)
+					}
+					sinceK, sinceF = k, strings.TrimSuffix(f[3], ":")
+					rest = strings.TrimSpace(rest[strings.Index(rest, f[3])+len(f[3]):])
+					rest = strings.TrimSpace(strings.TrimPrefix(rest, ":"))
+				}
 				cl := mkClause(rest, s.no, fmt.Sprintf("i%d", len(curLoop.Invariants)+1))
+				cl.SinceOrdinal, cl.SinceCallee = sinceK, sinceF
 				cl.CurrentParams = true
 				cl.LoopOrd = curLoop.Ordinal
 				curLoop.Invariants = append(curLoop.Invariants, cl)
@@ -363,7 +380,11 @@ func splitTop(s string, sep byte) []string {
 //   exists i in lo..hi :: body
 //   forall x T :: body             __forallT(func(x T) bool { return body })
 //   old(e)           __old(e)
+var beforeRe = regexp.MustCompile(`\bbefore\(([A-Za-z_][A-Za-z0-9_]*)\)`)
+
 func rewriteSpec(s string) string {
+	// before(x): the value a scalar local had at the clause's "since" snapshot
+	s = beforeRe.ReplaceAllString(s, "before_$1")
 	s = strings.ReplaceAll(s, "old(", "__old(")
 	s = strings.ReplaceAll(s, "__ __old(", "__old(")
 	return rewriteGroup(s)
